@@ -848,6 +848,8 @@ def rule_validator_covers(ctx: Ctx, rule: str = "validator-covers") -> None:
     fd = prog.func("PolyhedralIoContract.from_dict")
     val = prog.func("serializer.validate_contract_dict")
     chk = prog.func("serializer._check_clause")
+    if _validator_covers_semantic(ctx, rule, prog, fd, val):
+        return
     used_top: Set[str] = set()
     used_clause: Set[str] = set()
     p0 = fd.params[0]
@@ -871,6 +873,70 @@ def rule_validator_covers(ctx: Ctx, rule: str = "validator-covers") -> None:
     calls = [norm(c.func) for c in ast.walk(val.node) if isinstance(c, ast.Call)]
     construct = "validate_contract_dict checks each machine clause with _check_clause"
     (ctx.ok(rule, val.key, construct) if any(c.endswith("_check_clause") for c in calls) else ctx.violation(rule, val.key, construct, "no call of _check_clause", where=val.where))
+
+
+def _validator_covers_semantic(ctx: Ctx, rule: str, prog: Program, fd: FuncInfo, val: FuncInfo) -> bool:
+    """The same obligation put to the interpreter: for every key of a valid machine dictionary (top level and inside a
+    clause), if from_dict fails without it, the validator refuses a dictionary without it.  True when decided."""
+    from .termalg import NONE, DictV, ListV, Raised, TermAlg, num
+
+    S = lambda s: ("str", s)  # noqa: E731
+
+    def clause():
+        return DictV({S("constant"): num(1), S("coefficients"): DictV({S("x"): num(2)})})
+
+    def contract():
+        return DictV({S("input_vars"): ListV([S("x")]), S("output_vars"): ListV([S("y")]), S("assumptions"): ListV([clause()]), S("guarantees"): ListV([clause()])})
+
+    init = prog.resolve_method("PolyhedralIoContract", "__init__")
+    stubs = {init.key: (lambda ta, pos, kw: NONE)} if init is not None else {}
+
+    def reader_fails(d) -> Optional[bool]:
+        try:
+            TermAlg(prog, stubs=stubs).call(fd, [d])
+            return False
+        except Raised:
+            return True
+        except Exception:
+            return None
+
+    def validator_refuses(d) -> Optional[bool]:
+        try:
+            TermAlg(prog).call(val, [d, S("c"), True])
+            return False
+        except Raised:
+            return True
+        except Exception:
+            return None
+
+    if reader_fails(contract()) is not False or validator_refuses(contract()) is not False:
+        return False  # the valid dictionary itself is not followed: let the reading of the syntax decide
+    cases = []
+    for k in list(contract().d):
+        d = contract()
+        del d.d[k]
+        cases.append(("top-level key %r" % k[1], d))
+    for fld in ("assumptions", "guarantees"):
+        for k in list(clause().d):
+            d = contract()
+            del d.d[S(fld)].items[0].d[k]
+            cases.append(("clause key %r (in %s)" % (k[1], fld), d))
+    verdicts = []
+    for label, d in cases:
+        rf, vr = reader_fails(d), validator_refuses(d)
+        if rf is None or vr is None:
+            return False
+        verdicts.append((label, rf, vr))
+    n = 0
+    for label, rf, vr in verdicts:
+        construct = "a dictionary without %s that from_dict cannot read is refused by the validator" % label
+        if rf:
+            n += 1
+            (ctx.ok(rule, val.key, construct) if vr else ctx.violation(rule, val.key, construct, "from_dict fails on such a dictionary and validate_contract_dict accepts it", where=val.where))
+        else:
+            ctx.ok(rule, val.key, "from_dict does not need %s" % label, nontrivial=False)
+    ctx.floor("keys from_dict cannot do without", n, 6)
+    return True
 
 
 def _helper_requires_param(prog: Program, name: str, argpos: int, kwname: Optional[str]) -> bool:
